@@ -117,8 +117,9 @@ Proof.
     destruct (Nat.eqb l0 l); simpl; [exact I|assumption].
   - destruct (eval s0 e) as [s1 [v|x]]; exact I.
   - rewrite targets_try in Ht. apply orb_false_iff in Ht as [Ht Hf]. apply orb_false_iff in Ht as [Hb Hc].
-    assert (Hlist : forall l s0, targets_list t l = false -> nj_s t (snd (slist (exec_s fuel) s0 l))).
-    { intros l' s0' Hl. apply nj_slist. intros; apply IH. eapply targets_list_false; eauto. }
+    assert (Hlist : forall l s0, targets_list t l = false -> nj_s t (snd (spolled poll (slist (exec_s fuel)) s0 l))).
+    { intros l' s0' Hl. unfold spolled. destruct (poll s0') as [s1' [xp'|]]; [exact I|].
+      apply nj_slist. intros; apply IH. eapply targets_list_false; eauto. }
     apply nj_sfinally; [|intros; apply Hlist; destruct f; simpl in *; congruence].
     apply nj_scatch; [apply Hlist; assumption|intros; apply Hlist; destruct c; simpl in *; congruence].
 Qed.
@@ -238,60 +239,89 @@ Proof.
     + repeat split; simpl; exact I.
 Qed.
 
-Lemma sim_block0 fuel (IH : IHfuel fuel) (l : list stmt) s0 LS :
-  wf_list l = true -> (forall t, In t LS -> targets_list t l = false) ->
-  simres0 LS (oblock (exec_o fuel) s0 [] l) (slist (exec_s fuel) s0 l).
+Lemma sim_blockX fuel (IH : IHfuel fuel) (l : list stmt) s0 X LS :
+  wf_list l = true -> (forall t, In t X -> targets_list t l = false) ->
+  (forall t, In t LS -> targets_list t l = false) ->
+  simres0 LS (oblock (exec_o fuel) s0 X l) (slist (exec_s fuel) s0 l).
 Proof.
-  intros Hwf Hnt.
-  pose proof (sim_block fuel IH l s0 [] [] Hwf (fun g H => match H with end)) as Hs.
-  simpl in Hs. destruct Hs as [H1 [H2 H3]]. repeat split; try assumption.
+  intros Hwf HX Hnt.
+  pose proof (sim_block fuel IH l s0 X [] Hwf HX) as Hs.
+  rewrite app_nil_r in Hs. destruct Hs as [H1 [H2 H3]]. repeat split; try assumption.
   apply rel_weaken; [assumption|]. intros t Ht. apply nj_slist_exec. auto.
 Qed.
 
-Lemma sim_catch fuel (IH : IHfuel fuel) r1o r1s c LS :
-  simres0 LS r1o r1s -> wf_olist c = true -> (forall t, In t LS -> targets_olist t c = false) ->
-  simres0 LS (ocatch (oblock (exec_o fuel)) r1o c) (scatch (slist (exec_s fuel)) r1s c).
+(* a polled block entered with a label list none of whose labels it targets *)
+Lemma sim_pblockX fuel (IH : IHfuel fuel) (l : list stmt) s0 G LS X :
+  (X = G ++ LS \/ X = []) ->
+  wf_list l = true -> (forall t, In t X -> targets_list t l = false) ->
+  (forall t, In t LS -> targets_list t l = false) ->
+  let ro := opolled poll (oblock (exec_o fuel)) s0 X l in
+  let rs := spolled poll (slist (exec_s fuel)) s0 l in
+  fst (fst ro) = fst rs /\ rel [] (snd ro) (snd rs) /\ (forall t, In t LS -> nj_s t (snd rs)) /\
+  (snd (fst ro) = G ++ LS \/ snd (fst ro) = []).
 Proof.
-  intros [H1 [H2 H3]] Hwf Hnt. destruct r1o as [[s1 L1] ro]. destruct r1s as [s2 rs]. simpl in *. subst s2 L1.
+  intros HXs Hwf HX Hnt. unfold opolled, spolled.
+  destruct (poll s0) as [s1 [xp|]].
+  - repeat split; simpl; try reflexivity; try exact HXs; try (intros; exact I).
+  - pose proof (sim_block fuel IH l s1 X [] Hwf HX) as Hs.
+    rewrite app_nil_r in Hs. destruct Hs as [H1 [H2 H3]]. repeat split; try assumption.
+    + intros t Ht. apply nj_slist_exec. auto.
+    + now right.
+Qed.
+
+Lemma sim_catch fuel (IH : IHfuel fuel) r1o r1s c G LS :
+  simres G LS r1o r1s -> wf_olist c = true ->
+  (forall t, In t LS -> targets_olist t c = false) ->
+  (forall t, In t G -> targets_olist t c = false) ->
+  simres G LS (ocatch (opolled poll (oblock (exec_o fuel))) r1o c) (scatch (spolled poll (slist (exec_s fuel))) r1s c).
+Proof.
+  intros [H1 [H2 H3]] Hwf Hnt HG. destruct r1o as [[s1 L1] ro]. destruct r1s as [s2 rs]. simpl in *. subst s2.
   unfold ocatch, scatch.
   destruct ro as [o|v|]; destruct rs as [cc|]; simpl in H2; try contradiction.
-  - assert (E : match cc, c with CThrow _, Some cb => slist (exec_s fuel) s1 cb | _, _ => (s1, SDone cc) end = (s1, SDone cc)).
+  - assert (E : match cc, c with CThrow _, Some cb => spolled poll (slist (exec_s fuel)) s1 cb | _, _ => (s1, SDone cc) end = (s1, SDone cc)).
     { destruct cc; destruct c; try reflexivity. destruct o; simpl in H2; contradiction. }
     rewrite E. destruct c; repeat split; simpl; assumption.
   - destruct cc; try contradiction. subst. destruct c as [cb|].
-    + apply sim_block0; [assumption|exact Hwf|]. intros t Ht. apply (Hnt t Ht).
-    + repeat split; simpl; reflexivity.
-  - destruct c; repeat split; simpl; exact I.
+    + assert (HX : forall t, In t L1 -> targets_list t cb = false).
+      { intros t Ht. destruct H3 as [-> | ->]; [|destruct Ht].
+        apply in_app_or in Ht as [Ht|Ht]; [apply (HG t Ht)|apply (Hnt t Ht)]. }
+      destruct (sim_pblockX fuel IH cb s1 G LS L1 H3 Hwf HX (fun t Ht => Hnt t Ht)) as (A1 & A2 & A3 & A4).
+      repeat split; try assumption. apply rel_weaken; assumption.
+    + repeat split; simpl; try reflexivity. exact H3.
+  - destruct c; repeat split; simpl; try exact I; exact H3.
 Qed.
 
-Lemma sim_finally fuel (IH : IHfuel fuel) r2o r2s f LS :
-  simres0 LS r2o r2s -> wf_olist f = true -> (forall t, In t LS -> targets_olist t f = false) ->
-  simres0 LS (ofinally (oblock (exec_o fuel)) r2o f) (sfinally (slist (exec_s fuel)) r2s f).
+Lemma sim_finally fuel (IH : IHfuel fuel) r2o r2s f G LS :
+  simres G LS r2o r2s -> wf_olist f = true ->
+  (forall t, In t LS -> targets_olist t f = false) ->
+  (forall t, In t G -> targets_olist t f = false) ->
+  simres G LS (ofinally (opolled poll (oblock (exec_o fuel))) r2o f) (sfinally (spolled poll (slist (exec_s fuel))) r2s f).
 Proof.
-  intros [H1 [H2 H3]] Hwf Hnt. destruct r2o as [[s1 L1] ro]. destruct r2s as [s2 rs]. simpl in *. subst s2 L1.
+  intros [H1 [H2 H3]] Hwf Hnt HG. destruct r2o as [[s1 L1] ro]. destruct r2s as [s2 rs]. simpl in *. subst s2.
   unfold ofinally, sfinally.
   destruct f as [fb|].
   2:{ destruct ro as [o|v|]; destruct rs as [cc|]; simpl in H2; try contradiction; repeat split; simpl; try assumption; exact I. }
-  pose proof (sim_block fuel IH fb s1 [] [] Hwf (fun g H => match H with end)) as Hb.
-  assert (Hnj : forall t, In t LS -> nj_s t (snd (slist (exec_s fuel) s1 fb))).
-  { intros t Ht. apply nj_slist_exec. apply (Hnt t Ht). }
-  simpl in Hb.
-  destruct (oblock (exec_o fuel) s1 [] fb) as [[s3 L3] r3o]. destruct (slist (exec_s fuel) s1 fb) as [s4 r3s].
-  destruct Hb as [Hb1 [Hb2 Hb3]]. simpl in *. subst s4 L3.
+  assert (HX : forall t, In t L1 -> targets_list t fb = false).
+  { intros t Ht. destruct H3 as [-> | ->]; [|destruct Ht].
+    apply in_app_or in Ht as [Ht|Ht]; [apply (HG t Ht)|apply (Hnt t Ht)]. }
+  pose proof (sim_pblockX fuel IH fb s1 G LS L1 H3 Hwf HX (fun t Ht => Hnt t Ht)) as Hb.
+  destruct (opolled poll (oblock (exec_o fuel)) s1 L1 fb) as [[s3 L3] r3o].
+  destruct (spolled poll (slist (exec_s fuel)) s1 fb) as [s4 r3s].
+  destruct Hb as (Hb1 & Hb2 & Hnj & Hb3). simpl in *. subst s4.
   assert (Hr3 : rel LS r3o r3s) by (apply rel_weaken; assumption).
   destruct ro as [o|v|]; destruct rs as [cc|]; simpl in H2; try contradiction;
-    try (repeat split; simpl; exact I).
+    try (repeat split; simpl; try exact I; exact H3).
   - destruct r3o as [o3|v3|]; destruct r3s as [c3|]; simpl in Hb2; try contradiction.
     + destruct o3; destruct c3; simpl in Hb2; try contradiction; simpl;
         repeat split; simpl; try assumption; try reflexivity; exact Hr3.
     + destruct c3; try contradiction. repeat split; simpl; assumption.
-    + repeat split; simpl; exact I.
+    + repeat split; simpl; try exact I; assumption.
   - destruct cc; try contradiction. subst.
     destruct r3o as [o3|v3|]; destruct r3s as [c3|]; simpl in Hb2; try contradiction.
     + destruct o3; destruct c3; simpl in Hb2; try contradiction; simpl;
         repeat split; simpl; try assumption; try reflexivity; exact Hr3.
     + destruct c3; try contradiction. repeat split; simpl; assumption.
-    + repeat split; simpl; exact I.
+    + repeat split; simpl; try exact I; assumption.
 Qed.
 
 Lemma pop_snoc (X : list label) t : pop (X ++ [t]) = X.
@@ -392,10 +422,18 @@ Proof.
     assert (Hb : forall g, In g G -> targets_list g b = false).
     { intros g Hg. specialize (HG g Hg). rewrite targets_try in HG.
       apply orb_false_iff in HG as [HG _]. apply orb_false_iff in HG as [HG _]. exact HG. }
-    pose proof (sim_block fuel IH b s0 G LS Hwb Hb) as H1.
-    pose proof (sim_catch fuel IH _ _ c LS H1 Hwc Hc) as H2.
-    pose proof (sim_finally fuel IH _ _ f LS H2 Hwff Hf) as [H3 [H4 H5]].
-    repeat split; try assumption. now right.
+    assert (HGc : forall g, In g G -> targets_olist g c = false).
+    { intros g Hg. specialize (HG g Hg). rewrite targets_try in HG.
+      apply orb_false_iff in HG as [HG _]. apply orb_false_iff in HG as [_ HG]. exact HG. }
+    assert (HGf : forall g, In g G -> targets_olist g f = false).
+    { intros g Hg. specialize (HG g Hg). rewrite targets_try in HG.
+      apply orb_false_iff in HG as [_ HG]. exact HG. }
+    assert (H1 : simres G LS (opolled poll (oblock (exec_o fuel)) s0 (G ++ LS) b) (spolled poll (slist (exec_s fuel)) s0 b)).
+    { unfold opolled, spolled. destruct (poll s0) as [s1 [xp1|]].
+      - repeat split; simpl; try reflexivity. now left.
+      - destruct (sim_block fuel IH b s1 G LS Hwb Hb) as [A1 [A2 A3]]. repeat split; try assumption. now right. }
+    pose proof (sim_catch fuel IH _ _ c G LS H1 Hwc Hc HGc) as H2.
+    exact (sim_finally fuel IH _ _ f G LS H2 Hwff Hf HGf).
 Qed.
 
 (* Top-level statement of the prototype theorem: a well-formed program run from rest. *)
